@@ -16,6 +16,26 @@ func TestC08(t *testing.T) {
 	Ev.Component("source pool reads, writers, goroutine schedule", "simulated")
 	Prop(t, "C08", func(rt *rapid.T) {
 		pair := GenPair(rt, GenOpts{Big: true, NoEdits: true, HighEntropyOnly: true, MaxFiles: 5})
+		if rapid.IntRange(0, 19).Draw(rt, "verybig") == 0 {
+			// a file several times the differ's 4 MiB window with one alignment-shifting edit near the
+			// front: the bound must not grow with file size
+			sz := rapid.SampledFrom([]int{9 * MiB, 13 * MiB, 17*MiB + 12345}).Draw(rt, "verybigsize")
+			data := Bytes(rapid.Uint64().Draw(rt, "verybigseed"), sz)
+			off := rapid.IntRange(0, 200*KiB).Draw(rt, "verybigoff")
+			ins := rapid.SampledFrom([]int{1, 7, 1000, BlockSize + 1}).Draw(rt, "verybiglen")
+			var nw []byte
+			intro := 0
+			if rapid.Bool().Draw(rt, "verybigdelete") {
+				nw = append(append([]byte{}, data[:off]...), data[off+ins:]...)
+			} else {
+				nw = append(append(append([]byte{}, data[:off]...), Bytes(uint64(ins), ins)...), data[off:]...)
+				intro = ins
+			}
+			pair.Old["huge.bin"] = &Entry{Kind: KFile, Data: data}
+			pair.New["huge.bin"] = &Entry{Kind: KFile, Data: nw}
+			pair.Meta["huge.bin"] = FileMeta{From: "huge.bin", Edits: 1, Introduced: intro, Op: fmt.Sprintf("shift by %d at %d in %d MiB", ins, off, sz/MiB)}
+			Ev.Probe("file_several_times_the_4MiB_window_with_shifting_edit")
+		}
 		identical := rapid.IntRange(0, 5).Draw(rt, "identical") == 0
 		if identical {
 			pair.New = pair.Old.Clone()
@@ -27,6 +47,8 @@ func TestC08(t *testing.T) {
 		comp := GenCompression(rt)
 		srcSlice := drawSlicer(rt, "srcslice")
 		spec := drawSched(rt)
+		eofWith := rapid.Bool().Draw(rt, "eofwith")
+		sigViaFile := rapid.Bool().Draw(rt, "sigviafile")
 
 		dir, cleanup := RunDir()
 		defer cleanup()
@@ -37,7 +59,7 @@ func TestC08(t *testing.T) {
 		s := &Sched{Spec: spec, MaxSteps: 200000}
 		var dr *DiffResult
 		s.Run(t, func() {
-			dr = Diff(oldDir, newDir, comp, DiffSeams{SourceSlice: srcSlice, Yield: s.Yield})
+			dr = Diff(oldDir, newDir, comp, DiffSeams{SourceSlice: srcSlice, Yield: s.Yield, EOFWith: eofWith, SigViaFile: sigViaFile})
 		})
 		if s.BudgetExceeded {
 			return
